@@ -24,6 +24,7 @@ import XotModel.Lemmas.FinvPrefix
 import XotModel.Lemmas.FinvIdIndex
 import XotModel.Lemmas.Fcreation
 import XotModel.Lemmas.ArenaExamples
+import XotModel.Lemmas.ArenaSim
 
 namespace XotModel.Props
 open XotModel
@@ -788,8 +789,10 @@ example :
   next to a node that has a parent and is not below the inserted node, `remove` of a node with a
   parent or without children: exactly the calls the forest model does not send to its `corrupt`
   sink (except `remove` of a parentless node with exactly one child, which is fine but not proved).
-  Not covered by these theorems: the `traverse` / `descendants` iterators and the link from
-  `Arena.Shape` (lists keyed by slot index) to `Forest` (`HTree`, handles in creation order).
+  `Arena.Abs a g w rs f`: the state `f` of the forest model (`Model/Forest.lean`: `HTree`s with
+  creation-order handles) is the arena read through `g`, the handle numbering and values `w`
+  (injective on live slots, below `f.next`) and the parentless live slots `rs` in the forest's root
+  order.  Not covered by these theorems: the `traverse` / `descendants` iterators.
   ===================================================================================== -/
 
 /-- Every arena reached from the empty one by such calls satisfies the pointer invariant. -/
@@ -929,6 +932,44 @@ theorem C04_arena_refines_remove_subtree (a : Arena) (g : Arena.Shape) (r : Aren
   obtain ⟨a', l, h, ok⟩ := r.removeSubtree i hi
   exact ⟨a', l, h, ok.rep, ok.nodup, fun u => (ok.mem u).trans (r.reach_detach_iff i u), ok.mono⟩
 
+/-- Refinement to the forest model: the primitives of `Model/Forest.lean` ARE indextree's
+    operations, read through the abstraction.  Every call of `Arena.Call` from an arena that
+    abstracts to the forest `f` leads to an arena that abstracts to the result of the corresponding
+    forest primitive (`newNode`, `detachRaw`, `checkedAppend`, `checkedPrepend`,
+    `checkedInsertAfter`, `checkedInsertBefore`, `spliceOut`, `dropSubtree`), with the handle
+    numbering extended at `new_node` by the fresh handle `f.next` — also when the slot is a reused
+    one. -/
+theorem C04_arena_refines_forest_step (a a' : Arena) (g : Arena.Shape) (w : Arena.View) (rs : List Nat) (f : Forest)
+    (h : Arena.Abs a g w rs f) (c : Arena.Call a a') :
+    ∃ g' w' rs' f', Arena.Abs a' g' w' rs' f' ∧ Arena.FCall f f' :=
+  h.call c
+
+/-- Hence every history of arena calls from the empty arena is simulated by a history of forest
+    primitives from the empty forest: the forest model's contract for indextree is a theorem about
+    the pointer-level model. -/
+theorem C04_arena_refines_forest (a : Arena) (s : Arena.Steps {} a) :
+    ∃ g w rs f, Arena.Abs a g w rs f ∧ Arena.FSteps {} f :=
+  Arena.Abs.empty.steps s
+
+/-- The single calls, with the forest model's answer next to indextree's: `detach` = `detachRaw`;
+    an accepted `checked_append` = `checkedAppend` answering `true`; a refused one (self, ancestor) is
+    refused by the forest model too, which then stays as it is. -/
+theorem C04_arena_refines_forest_calls (a : Arena) (g : Arena.Shape) (w : Arena.View) (rs : List Nat) (f : Forest)
+    (h : Arena.Abs a g w rs f) :
+    (∀ x, Arena.LiveId a x → ∃ a', Arena.detach a x = .done a' () ∧
+      Arena.Abs a' (g.detach x.index0) w (rs.filter (· ≠ x.index0) ++ [x.index0]) (f.detachRaw (w.rho x.index0))) ∧
+    (∀ p c, Arena.Live a p → Arena.Live a c → p ≠ c → ¬ Arena.Reach g.par p c →
+      ∃ a', Arena.checkedAppend a (a.idAt p) (a.idAt c) = .done a' (.ok ()) ∧
+        (f.checkedAppend (w.rho p) (w.rho c)).2 = true ∧
+        Arena.Abs a' (g.append p c) w (rs.filter (· ≠ c)) (f.checkedAppend (w.rho p) (w.rho c)).1) ∧
+    (∀ p c, Arena.Live a p → Arena.Live a c → (p = c ∨ Arena.Reach g.par p c) →
+      f.checkedAppend (w.rho p) (w.rho c) = (f, false)) ∧
+    (∀ i, Arena.Live a i → ∃ a' l, Arena.removeSubtree a (a.idAt i) = .done a' () ∧
+      (∀ u, u ∈ l ↔ Arena.Reach g.par u i) ∧
+      Arena.Abs a' ((g.detach i).prune l) w (rs.filter (· ≠ i)) (f.dropSubtree (w.rho i))) :=
+  ⟨fun x hx => h.detach x hx, fun p c hp hc hne hanc => h.checkedAppend_ok p c hp hc hne hanc,
+   fun p c hp hc hr => (h.checkedAppend_refused p c hp hc hr).1, fun i hi => h.removeSubtree i hi⟩
+
 /-- Non-vacuity: closed arenas reached by histories (three nodes `1:0 [2:0, 3:0]`; a grandchild;
     after `remove(2:0)` and a `new_node` that reuses the slot with stamp 1), their invariant, what the
     stale id `2:0` answers, and what indextree does outside the list semantics: `remove` of a
@@ -939,6 +980,9 @@ theorem C04_arena_refines_remove_subtree (a : Arena) (g : Arena.Shape) (r : Aren
 example : Arena.Wf Arena.sampleA ∧ Arena.Wf Arena.sampleB ∧ Arena.Wf Arena.sampleC :=
   ⟨C04_arena_wf_reachable _ Arena.sampleA_steps, C04_arena_wf_reachable _ Arena.sampleB_steps,
    C04_arena_wf_reachable _ Arena.sampleC_steps⟩
+
+example : ∃ g w rs f, Arena.Abs Arena.sampleC g w rs f ∧ Arena.FSteps {} f :=
+  C04_arena_refines_forest _ Arena.sampleC_steps
 
 example : Arena.sampleA.wf = true ∧ Arena.sampleC.wf = true ∧
     Arena.isRemoved Arena.sampleC ⟨2, 0⟩ = .done Arena.sampleC true ∧
